@@ -8,10 +8,13 @@ mod tens;
 mod c01;
 mod c02;
 mod c03;
+mod c04;
+mod c05;
 mod c06;
 mod c07;
 mod c08;
 mod c09;
+mod c10;
 mod c11;
 mod c12;
 mod c13;
@@ -80,10 +83,13 @@ fn main() {
         "C01" => c01::run(&eng, replay.as_deref()),
         "C02" => c02::run(&eng, replay.as_deref()),
         "C03" => c03::run(&eng, replay.as_deref()),
+        "C04" => c04::run(&eng, replay.as_deref()),
+        "C05" => c05::run(&eng, replay.as_deref()),
         "C06" => c06::run(&eng, replay.as_deref()),
         "C07" => c07::run(&eng, replay.as_deref()),
         "C08" => c08::run(&eng, replay.as_deref()),
         "C09" => c09::run(&eng, replay.as_deref()),
+        "C10" => c10::run(&eng, replay.as_deref()),
         "C11" => c11::run(&eng, replay.as_deref()),
         "C12" => c12::run(&eng, replay.as_deref()),
         "C13" => c13::run(&eng, replay.as_deref()),
